@@ -15,7 +15,7 @@ CLAIMED = {
              "lists (valid + malformed, empty raw data over-represented) every run; an independent oracle re-checks payload and result on the real code.",
         note=TB + "Modelled not verified: CPython struct for the '<' formats BHIQbhiq/x/s (Lib/Struct.v, diffed each run); format strings are complete items.",
         technique="Coq proof by induction on struct formats + differential model/code correspondence",
-        ref="7/C13"),
+        ref="5/C13"),
     "C11": dict(
         text="Theorem C11_wellformed (induction over every accepted non-empty datagram list; lengths, commands, addresses, wkc presets, index and ethertype "
              "universally quantified): the assembled frame is read back by an independent ETG.1000.4 parser as exactly the identification datagram plus the "
@@ -24,21 +24,21 @@ CLAIMED = {
              "frame assembled from the same datagrams with NOP in place of every write command.",
         note=TB + "Modelled: Packet.append/assemble/full, SterilePacket.append_writer/sterile (Ecat/Frame.v); struct '<' formats.",
         technique="Coq proof against an independent frame parser + differential correspondence",
-        ref="7/C11"),
+        ref="5/C11"),
     "C20": dict(
         text="Theorems C20_distinct_slots (invariant over ALL map/unmap sequences, any FMMU count, by induction on the operation list), C20_takes_free, "
              "C20_full_fails, C20_release_own about a model of Terminal.map_fmmu that keeps Python's reversed-slice clipping, list.index and negative-index "
              "assignment semantics; tied to the code by running random (thorough: exhaustive to length 5) operation sequences through the real async context manager.",
         note=TB + "Modelled: slot choice and release in Terminal.map_fmmu; the FMMU register writes are assumed to succeed (failure paths belong to C24).",
         technique="Coq invariant proof over operation sequences + differential correspondence",
-        ref="7/C20"),
+        ref="5/C20"),
     "C27": dict(
         text="Theorems C27_follow, C27_timeout_default, C27_timeout (both safe states), C27_follow_any_safe, C27_lastgood hold for every valve state, switch "
              "reading and clock value, hence along every history; tied to devices.Valve by running random histories through the real device with real "
              "TerminalVar/PacketVar/DeviceVar descriptors and a scripted clock.",
         note=TB + "Modelled: Valve.update/reset (Dev/Valve.v); time.monotonic replaced by a scripted integer clock.",
         technique="Coq proof by case analysis over all states + differential correspondence",
-        ref="7/C27"),
+        ref="5/C27"),
     "C14": dict(
         text="Theorem C14_order: for every target, every valid non-BOOTSTRAP first status word and EVERY further stream of AL-status words (unbounded polls, "
              "errors anywhere) the trace of Terminal.to_operational acknowledges an initial error first, requests a prefix of the states above the start up "
@@ -47,7 +47,7 @@ CLAIMED = {
              "code by scripted-terminal runs (structured behaviours + unstructured streams).",
         note=TB + "Modelled: to_operational/get_state (Ecat/StateMachine.v); ec.roundtrip replaced by a scripted terminal.",
         technique="Coq proof by induction over reply streams + differential correspondence",
-        ref="7/C14"),
+        ref="5/C14"),
     "C18": dict(
         text="Theorem C18_regions (induction over ANY terminal list; FMMU, direct and Aerotech-style allocators; all sizes/flags): accepted allocations give "
              "pairwise disjoint regions of the declared sizes, direct regions inside their own datagram, FMMU regions inside the LRD/LWR data, logical address "
@@ -57,7 +57,7 @@ CLAIMED = {
         note=TB + "Modelled: EBPFTerminal.allocate, AerotechBase.allocate, SterilePacket.append_fmmu, SyncGroupBase.allocate (Ecat/Alloc.v). Assumes "
              "non-negative sizes and positive Aerotech packet sizes; for ParallelEtherCat the window base comes from FMMULock (C23).",
         technique="Coq invariant proof over the allocation fold + differential correspondence",
-        ref="7/C18"),
+        ref="5/C18"),
     "C30": dict(
         text="Theorems C30_inputs_before_update, C30_outputs_next_frame, C30_wkc_cleared, C30_error_iff_mismatch hold for every response frame, counter table and "
              "device behaviour (devices = arbitrary function from the data seen to byte writes). The model of update_devices is tied to the code by running the "
@@ -66,7 +66,7 @@ CLAIMED = {
         note=TB + "Modelled: SyncGroup.update_devices (Ecat/Cycle.v). harness/sim_bus.py (bus simulator) and asyncio are trusted for the correspondence; devices "
              "are assumed not to write working-counter bytes.",
         technique="Coq proof over all frames/devices + differential correspondence on a simulated bus",
-        ref="7/C30"),
+        ref="5/C30"),
     "C17": dict(
         text="Theorems C17_read_one (8 image bytes per access for both interface widths and any junk), C17_categories (for ANY image whose category area is the "
              "SII encoding of any category list: identity fields and every category returned exactly; proved by an invariant of the buffered reader), "
@@ -76,7 +76,7 @@ CLAIMED = {
         note=TB + "Modelled: _eeprom_read_one, read_eeprom, parse_sync_managers, parse_pdos (EEPROM source) in Ecat/Eeprom.v; busy polling is abstracted (the loops "
              "skip busy replies), the SDO source of parse_pdos is not modelled; harness/sim_bus.py EEPROM interface trusted.",
         technique="Coq proof (reader invariant + codec inversion by induction) + differential correspondence on a simulated EEPROM interface",
-        ref="7/C17"),
+        ref="5/C17"),
     "C25": dict(
         text="Theorem C25_unique / C25_invariant: in the labelled transition system whose steps are the atomic code sections of find_free_address / "
              "assigned_address (between awaits), for every bus, every interleaving of any number of tasks and every sequence of random draws, handed-out "
@@ -86,7 +86,7 @@ CLAIMED = {
         note=TB + "Modelled: the three atomic sections of find_free_address/assigned_address (Ecat/Addr.v); asyncio atomicity between awaits is assumed; "
              "pre-assigned addresses are assumed stable.",
         technique="Coq invariant proof over all interleavings + trace-replay correspondence",
-        ref="7/C25"),
+        ref="5/C25"),
     "C12": dict(
         text="Theorems C12_sent_once_in_order (induction over ANY list of queued requests: each goes into exactly one frame, in submission order, every frame "
              "within the size/count limits, never-fitting requests fail; the packing function is total, i.e. sendloop returns to awaiting), C12_frames_fit, "
@@ -98,7 +98,7 @@ CLAIMED = {
              "ready callbacks are not explored); lost frames/duplicates are handled by wait_futures bookkeeping, which is exercised by the correspondence and "
              "the oracle but has no theorem of its own.",
         technique="Coq proof by induction over request lists + differential correspondence with scripted bus",
-        ref="7/C12"),
+        ref="5/C12"),
     "C28": dict(
         text="Theorems C28_tx_exactly_once_in_order, C28_rx_exactly_once_in_order, C28_kept_until_ack, C28_one_toggle_per_chunk, C28_invariant: an invariant over "
              "EVERY history of application writes and cycles, for every timing of the terminal (oracle: init reaction, accept delay, announcements), both "
@@ -108,7 +108,7 @@ CLAIMED = {
         note=TB + "Modelled: Serial.update, os.read(...,22) on the out pipe, the EL6002 handshake (Dev/Serial.v `react`: the terminal never re-announces before an "
              "acknowledge and hands nothing over before initialisation completed - this terminal model is trusted). Every cyclic frame is assumed to come back.",
         technique="Coq invariant proof over all histories + state-by-state differential correspondence",
-        ref="7/C28"),
+        ref="5/C28"),
     "C15": dict(
         text="Theorems C15_in_process (any number of tasks, any interleaving of acquire/send/release under asyncio's FIFO hand-over: the log is a sequence of "
              "whole exchanges and the counters form the chain 0,1..7,1..), C15_cross_process (n processes, any interleaving of lock attempt / read / message / "
@@ -120,7 +120,7 @@ CLAIMED = {
         note=TB + "Partial for the cross-process part: POSIX atomicity of pread/pwrite/ftruncate/lockf and exclusion of fcntl record locks between processes are "
              "assumed, crashes of a lock holder are not modelled; asyncio.Lock's hand-over to the first waiter is assumed as modelled.",
         technique="Coq invariant proofs over interleavings + trace replay against real locks in real processes",
-        ref="7/C15"),
+        ref="5/C15"),
     "C16": dict(
         text="Theorems C16_download (for EVERY value length, every mailbox size >= 24, subindex or complete access: the messages sdo_write produces make a "
              "strict ETG.1000.6 SDO server - which aborts on wrong sizes or toggle bits - store exactly the value; induction over the segment sequence), "
@@ -132,7 +132,7 @@ CLAIMED = {
              "behaviour (harness/sim_mailbox.py and its Coq twin) is written from ETG.1000.6 and trusted. Unrelated mail is only tolerated before the first "
              "upload response (the client raises otherwise; not covered).",
         technique="Coq proof of client||server composition by induction over segments + byte-exact differential correspondence",
-        ref="7/C16"),
+        ref="5/C16"),
     "C24": dict(
         text="Theorem C24_cleanup: for EVERY prefix of bus-level events the run coroutine can have produced when it is cancelled (any number of cycles, any subset "
              "of the OPERATIONAL requests already sent, slow and fast groups), the clean-up asks every terminal that was asked to go OPERATIONAL back to "
@@ -145,7 +145,7 @@ CLAIMED = {
              "correspondence; process-based groups are covered only through wait_for_process (no real ParallelEtherCat/subprocess_run); a task cancelled "
              "before its coroutine first runs executes no clean-up at all (outside the quantifier: no await point reached).",
         technique="Coq proof over all admissible event prefixes + cancellation injected at every loop iteration of the real coroutines",
-        ref="7/C24"),
+        ref="5/C24"),
     "C01": dict(
         text="Theorem C01_exact (structural induction over ALL expression trees, all operand values, via the invariant C01_invariant: at every node the register "
              "value is congruent to the exact value modulo the width it is computed at): the n-byte destination receives the exact value reduced to n bytes, "
@@ -157,7 +157,7 @@ CLAIMED = {
              "trusted and cross-checked against the kernel when bpf() is permitted (skipped otherwise). Known findings: signed // and %, w/sw registers with "
              "non-extended upper half, abs of unsigned values with bit 63.",
         technique="Coq proof by structural induction over expression trees + execution of real generated bytecode in a kernel-validated ISA model",
-        ref="7/C01"),
+        ref="5/C01"),
     "C03": dict(
         text="Theorems C03_combination / C03_with_block (induction over ALL condition trees built with & | ~: the code of compare(negative) jumps away exactly "
              "when the condition is false resp. true, so the body runs iff the condition holds and the Else part iff not), C03_atom_signed / C03_atom_unsigned / "
@@ -169,7 +169,7 @@ CLAIMED = {
         note=TB + "Partial: jump patching, Else splicing and register ownership merging are not modelled (covered by execution of the emitted code, sampled); "
              "signed bit tests are covered by execution only.",
         technique="Coq proof by induction over condition trees + execution of real generated bytecode in a kernel-validated ISA model",
-        ref="7/C03"),
+        ref="5/C03"),
     "C07": dict(
         text="Theorems C07_read (for every format BHIQbhiq, every byte order and every byte content: load + byte swap + sign extension deliver struct.unpack's "
              "value, reduced to the destination), C07_write (for every value: struct.pack's bytes are stored at [p, p+n), no other packet byte and not the "
@@ -181,7 +181,7 @@ CLAIMED = {
         note=TB + "Partial: register allocation / instruction emission are not modelled (tie by execution, sampled); packet array accessors pB/pH/pI/pQ with "
              "register offsets are not exercised.",
         technique="Coq proof about byte-level load/store/guard composition + execution of real generated XDP code in a kernel-validated ISA model",
-        ref="7/C07"),
+        ref="5/C07"),
     "C06": dict(
         text="Theorem C06_no_lost_update: for ANY number of instances, ANY instruction counts and ANY interleaving of their instructions (induction over the "
              "interleaving relation), the shared cell ends up changed by exactly the sum of all amounts modulo its width, provided every instruction either "
@@ -193,7 +193,7 @@ CLAIMED = {
         note=TB + "Partial: the abstraction of the generated code to Priv/Add events is validated by the sampled executions, not proved; sequentially "
              "consistent instruction interleaving is assumed (the atomicity of BPF_XADD itself is the kernel's / hardware's guarantee); hash-map values are not exercised.",
         technique="Coq proof over all interleavings + multi-instance execution of real generated code in a kernel-validated ISA model",
-        ref="7/C06"),
+        ref="5/C06"),
     "C26": dict(
         text="Theorems C26_control_law (for ALL inputs in the property's ranges - unbounded integers, no bit-width enumeration: the machine-level model of "
              "Motor.program with 64-bit stmp, 32-bit DeviceVars, 16-bit output equals gain*(target-position) limited to the acceleration limit around the "
@@ -204,7 +204,7 @@ CLAIMED = {
         note=TB + "Partial: the statement-level model is hand-written (tie by execution of the generated code, sampled); only the EL7041 layout (16-bit "
              "velocity, 32-bit encoder) is exercised.",
         technique="Coq proof over all inputs (lia over unbounded integers) + execution of the real generated device program in a kernel-validated ISA model",
-        ref="7/C26"),
+        ref="5/C26"),
     "C19": dict(
         text="Theorems C19_bit_write_bits / C19_bit_write_frame (for every frame, position, bit number and value: a bit write changes exactly that bit; all other "
              "bits, all other bytes and the length are unchanged), C19_bit_paths_agree_write / _read (the byte the generated code computes - OR / AND with the "
@@ -216,7 +216,7 @@ CLAIMED = {
         note=TB + "Partial: the PDO table behind ProcessDesc is hand-made (not parsed from a terminal); register allocation / emission are covered by "
              "execution only; a little-endian host is assumed.",
         technique="Coq proofs at bit level (Z.testbit) + execution of the real Python path and the real generated program on the same frames",
-        ref="7/C19"),
+        ref="5/C19"),
     "C02": dict(
         text="Theorems C02_ring_ops / C02_divisions / C02_remainder (QArith, for ALL operand values and every mix of integer / fixed-point operands: the "
              "integer computation the DSL elaborates equals the exact rational result dropped to the result's representation), C02_elaboration (at every "
@@ -228,7 +228,7 @@ CLAIMED = {
         note=TB + "Partial: the elaboration model is hand-written (tie by execution, sampled); assignment of fixed-point values from Python is "
              "covered by C08. Known finding: negative operands of the scaling divisions (unsigned DIV).",
         technique="Coq proof over rationals (QArith) for all operand values + execution of real generated code in a kernel-validated ISA model",
-        ref="7/C02"),
+        ref="5/C02"),
     "C04": dict(
         text="Theorems C04_locals_disjoint (ANY list of local declarations: pairwise disjoint byte ranges), C04_scratch_disjoint (get_stack scratch lies below "
              "every local of the program), C04_array_vars_disjoint (ANY set of array-map variables), C04_store_frame (a store changes only its own bytes); "
@@ -239,7 +239,7 @@ CLAIMED = {
         note=TB + "Partial: hash-map variables, Dict structures and packet variables are not covered (no hash map in the ISA model; packets: C07); temporaries "
              "of expression evaluation are covered by execution only. Known finding: subprogram locals share their bytes (golden-pinned).",
         technique="Coq proof by induction over declaration lists + layout comparison + execution of real generated programs in a kernel-validated ISA model",
-        ref="7/C04"),
+        ref="5/C04"),
     "C08": dict(
         text="Theorems C08_one_slot_per_name (for ANY class hierarchy: one slot per variable name, sized by the declaration attribute lookup finds), "
              "C08_slots_disjoint (ANY collection: pairwise disjoint slots), C08_value_roundtrip (native pack / unpack on one side, load / store on the other); "
@@ -250,7 +250,7 @@ CLAIMED = {
         note=TB + "Partial: the per-CPU case exercises only the Python side (PerCPUVar indexing over a hand-made per-CPU blob); a map declared in a base class of "
              "the program is not initialised by EBPF.__init__ (only the program class's own dict is searched) - the maps are declared in the program class.",
         technique="Coq proof over declaration lists + layout comparison + values passed both ways between real descriptors and the real generated program",
-        ref="7/C08"),
+        ref="5/C08"),
     "C10": dict(
         text="Theorem C10_buffers_suffice: for EVERY operation of the Python map API (hash variable get / set, per-CPU read, Dict set / get / pop / del / "
              "iteration), EVERY declared map (any structure sizes, any per-CPU variable set) and EVERY number of possible CPUs, the key and value buffers the "
@@ -261,7 +261,7 @@ CLAIMED = {
         note=TB + "Partial: the sizes the kernel accesses are those of harness/sim_bpf.py (transcribed from the kernel's map syscalls), not observed from a "
              "real kernel; obj_pin / obj_get / prog_test_run buffers are not covered.",
         technique="Coq proof over all API operations and map declarations + interposition of the bpf() system call with a buffer-length registry",
-        ref="7/C10"),
+        ref="5/C10"),
     "C09": dict(
         text="Theorems C09_lookup_update_same, C09_cells_independent, C09_delete (for ALL tables, keys and values: what is stored under a key is found under it; "
              "every other key - every other hash-map variable - is an independent cell; delete / pop removes exactly that key, absent keys are not found) and "
@@ -273,7 +273,7 @@ CLAIMED = {
         note=TB + "Partial: the hash-map helper calls of the executable model (coq/Corr/C09.v) are NOT validated against the kernel; deletion from the program "
              "side and LRU maps are not exercised; no model/implementation correspondence term beyond the oracle (the tie is the exchange of map contents).",
         technique="Coq proof of the table laws + both real sides (Python API on a bpf() stand-in, generated program in the ISA model with hash maps) on shared map contents",
-        ref="7/C09"),
+        ref="5/C09"),
     "C29": dict(
         text="Theorems C29_one_slot_per_variable, C29_no_shared_storage (ANY set of device classes / instances: every device variable has exactly one slot of "
              "the size attribute lookup uses; slots are pairwise disjoint), C29_write_frame, C29_value_roundtrip (a write changes only its own bytes of the "
@@ -283,7 +283,7 @@ CLAIMED = {
         note=TB + "Partial: parent and child access the variables in turns (no concurrent access is exercised); the sync group's run loop in the child "
              "(subprocess_run) is not started - only the sharing of the device variables is exercised; three fixed device classes.",
         technique="Coq proof over declaration lists (shared with C08) + the real ProcessSyncGroup across a real spawned process",
-        ref="7/C29"),
+        ref="5/C29"),
     "C22": dict(
         text="Theorems C22_never_drops, C22_foreign_unchanged, C22_unregistered_group (for ALL frames and counter maps: no frame is dropped; non-EtherCAT frames, "
              "frames not starting with the identification datagram and frames of at most 30 bytes pass unchanged; frames of a group without registered "
@@ -298,7 +298,7 @@ CLAIMED = {
              "(inject x3, deliver 0: bus, deliver 0: program, deliver 0: bus, deliver 3: program, deliver 2: user space, inject, deliver 0: bus, deliver 4: "
              "user space) - whether the clause counts those is ambiguous, so it is reported in the evidence, not raised. The random dropper (rate > 0) is off.",
         technique="Coq proof over all frames / counters + execution of the real dispatcher bytecode in a kernel-validated ISA model + bounded history exploration (support only)",
-        ref="7/C22"),
+        ref="5/C22"),
     "C21": dict(
         text="Theorems C21_disabled_untouched, C21_activate_one, C21_activate_frame, C21_errors_bound (the group's program re-enables exactly the write "
              "datagrams: command byte written back, working counter cleared, one error per wrong counter, nothing else changes, nothing at all with output "
@@ -310,7 +310,7 @@ CLAIMED = {
         note=TB + "Partial: the abstraction of a frame to (index, enabled) and of the program run to 'enables the writes and gets the new index' is tied to the "
              "code only through the two correspondences; the devices' own output computation in that pass is C19 / C26.",
         technique="Coq invariant proof over all frame histories + execution of the real group program and dispatcher bytecode in a kernel-validated ISA model",
-        ref="7/C21"),
+        ref="5/C21"),
     "C23": dict(
         text="Theorems C23_two_participants (two participants, EVERY interleaving of their start / stop steps and every outcome of the ethertype draws - closed "
              "finite set of states with closure and invariants checked inside the kernel: at most one installs the dispatcher at a time, running participants "
@@ -325,7 +325,7 @@ CLAIMED = {
              "root; the file-system calls are real); crashes between operations are not modelled; for three participants the closure of the explored set is not "
              "re-proved structurally. Known finding: the dispatcher does not stay installed (leaver / fresh starter race).",
         technique="Coq finite-state closure proof + invariant proof over histories + real multi-process executions gated at every shared operation",
-        ref="7/C23"),
+        ref="5/C23"),
 }
 
 REASONS_NOT_YET = "no check built yet in this round (planned, see DESIGN.md section 7); nothing is claimed for it"
